@@ -285,13 +285,41 @@ func cqOpt(p *int64) string {
 	return cq.Some(cq.Z(*p))
 }
 
-func cqObs(o obs) string {
-	z := cq.Z
+// flat views of an obs in the index order of Check/C19Check.v
+func (o obs) zs() []int64 {
+	return []int64{
+		o.Recv, o.Lost, o.Hdr, o.Bytes, o.Fir, o.Pli, o.Nack, o.Sent, o.OBytes, o.OHdr, o.ONack, o.OFir, o.OPli,
+		o.RRecv, o.RLost, o.RRtt, o.RTotal, o.RMeas, o.ROSent, o.ROBytes, o.Reports, o.RORtt, o.ROTotal, o.ROMeas,
+	}
+}
 
-	return cq.C("mkObs", z(o.Recv), z(o.Lost), cqF(o.Jit), cqOpt(o.Last), z(o.Hdr), z(o.Bytes), z(o.Fir), z(o.Pli), z(o.Nack),
-		z(o.Sent), z(o.OBytes), z(o.OHdr), z(o.ONack), z(o.OFir), z(o.OPli),
-		z(o.RRecv), z(o.RLost), cqF(o.RJit), z(o.RRtt), z(o.RTotal), cqF(o.RFrac), z(o.RMeas),
-		z(o.ROSent), z(o.ROBytes), cqOpt(o.ROTs), z(o.Reports), z(o.RORtt), z(o.ROTotal), z(o.ROMeas))
+func (o obs) fs() []fnum { return []fnum{o.Jit, o.RJit, o.RFrac} }
+
+func (o obs) ts() []*int64 { return []*int64{o.Last, o.ROTs} }
+
+// cqDiff prints the fields of cur that differ from prev.
+func cqDiff(prev, cur obs) string {
+	var us []string
+	pz, cz := prev.zs(), cur.zs()
+	for i := range cz {
+		if pz[i] != cz[i] {
+			us = append(us, cq.C("UZ", cq.Z(int64(i)), cq.Z(cz[i])))
+		}
+	}
+	pf, cf := prev.fs(), cur.fs()
+	for i := range cf {
+		if pf[i] != cf[i] {
+			us = append(us, cq.C("UF", cq.Z(int64(i)), cqF(cf[i])))
+		}
+	}
+	pt, ct := prev.ts(), cur.ts()
+	for i := range ct {
+		if cqOpt(pt[i]) != cqOpt(ct[i]) {
+			us = append(us, cq.C("UT", cq.Z(int64(i)), cqOpt(ct[i])))
+		}
+	}
+
+	return cq.L(us)
 }
 
 func u(x uint32) string { return cq.ZU(uint64(x)) }
@@ -373,8 +401,10 @@ func (c recCase) toCase(buckets []string) cq.Case {
 		es[i] = cqEv(e)
 	}
 	os := make([]string, len(c.Obs))
+	prev := obs{Jit: fnum{Class: "zero"}, RJit: fnum{Class: "zero"}, RFrac: fnum{Class: "zero"}}
 	for i, o := range c.Obs {
-		os[i] = cqObs(o)
+		os[i] = cqDiff(prev, o)
+		prev = o
 	}
 
 	return cq.Case{
@@ -916,7 +946,7 @@ func sortedKeys(m map[string]bool) []string {
 func main() {
 	o := cq.ParseFlags()
 	r := o.Rand()
-	const caseType = "Z * Z * list event * list obs"
+	const caseType = "Z * Z * list event * list (list fupd)"
 	checks := []string{"rec_mismatches", "rec_spec_failures"}
 	recSet := &cq.Set{Name: "c19rec", Import: "IV.Check.C19Check", CaseType: caseType, Checks: checks}
 	icpSet := &cq.Set{Name: "c19icp", Import: "IV.Check.C19Check", CaseType: caseType, Checks: checks}
